@@ -13,6 +13,7 @@ From Coq Require Import List NArith ZArith Bool Arith Lia.
 From RecordUpdate Require Import RecordUpdate.
 From JV Require Import Bytes Msg SrvModel SrvLemmas SrvBasics SrvC03.
 From JV Require SrvC06.
+From JV Require SrvNoCrash.
 Import ListNotations.
 
 (* 1. the barrier counter = number of runnable notifications of released units not yet returned,
@@ -163,34 +164,34 @@ Theorem c03_same_message_concurrent_allowed :
 Proof. exact same_message_concurrent_allowed. Qed.
 Print Assumptions c03_same_message_concurrent_allowed.
 
-(* 5. liveness half, at quiescent points of a running, crash-free server.
+(* 5. liveness half, at quiescent points of a running server (no reachable state has crashed: C08).
    (a) a message still queued or at the barrier is held back only by an unfinished NOTIFICATION of
    an earlier message (in its handler, or waiting for a handler slot) - never by a call *)
 Theorem c03_calls_do_not_block_later : forall c s,
-  reach c s -> crash s = None -> quiescent s = true -> running s = true ->
+  reach c s -> quiescent s = true -> running s = true ->
   (inq s <> [] \/ exists u, dp s = DAtBarrier u \/ dp s = DBarrierWait u) ->
   exists u, dp s = DBarrierWait u /\ 0 < nbar s /\
     exists j n, nth_error (tasks s) j = Some n /\ t_unit n < u /\ runnable n = true /\ is_note n = true /\
       (t_st n = TRunning \/ (t_st n = TWaiting /\ sem_free s = 0)).
-Proof. exact calls_do_not_block_later. Qed.
+Proof. exact SrvNoCrash.c03_calls_do_not_block_later_nc. Qed.
 Print Assumptions c03_calls_do_not_block_later.
 
 (* (b) a request of a released message that has not entered its handler is queued in the semaphore
    with every slot taken: held back only by the concurrency limit *)
 Theorem c03_calls_do_not_block_later_only_slot : forall c s k t,
-  reach c s -> crash s = None -> quiescent s = true ->
+  reach c s -> quiescent s = true ->
   nth_error (tasks s) k = Some t -> released s (t_unit t) = true ->
   (t_st t = TAtAcquire \/ t_st t = TWaiting) ->
   t_st t = TWaiting /\ sem_free s = 0 /\ SrvC06.slots_used s = cf_K c.
-Proof. exact released_waits_only_for_slot. Qed.
+Proof. exact SrvNoCrash.c03_only_slot_nc. Qed.
 Print Assumptions c03_calls_do_not_block_later_only_slot.
 
 (* positive corollary: if no runnable notification of a released message is unfinished (whatever is
    still in flight is a call), everything that arrived has been dispatched *)
 Theorem c03_calls_do_not_block_later_all_dispatched : forall c s,
-  reach c s -> crash s = None -> quiescent s = true -> running s = true ->
+  reach c s -> quiescent s = true -> running s = true ->
   (forall j n, nth_error (tasks s) j = Some n -> runnable n = true -> is_note n = true ->
      released s (t_unit n) = true -> exists b, t_st n = TDone b) ->
   inq s = [] /\ dp s = DWaitWork /\ nbar s = 0 /\ forall v, v < length (units s) -> released s v = true.
-Proof. exact only_calls_all_dispatched. Qed.
+Proof. exact SrvNoCrash.c03_all_dispatched_nc. Qed.
 Print Assumptions c03_calls_do_not_block_later_all_dispatched.
